@@ -11,6 +11,12 @@ import (
 )
 
 func main() {
+	// go/packages runs `go list`; /repo needs go >= 1.26.2 and no module flags (go.work workspace)
+	os.Setenv("PATH", "/opt/veriftools/go1.26.8/bin:"+os.Getenv("PATH"))
+	os.Setenv("GOTOOLCHAIN", "local")
+	os.Setenv("GOFLAGS", "")
+	os.Setenv("GOPROXY", "off")
+	os.Setenv("GOSUMDB", "off")
 	if len(os.Args) < 2 {
 		fmt.Fprintln(os.Stderr, "usage: govc verify|check|dump ...")
 		os.Exit(2)
@@ -18,6 +24,8 @@ func main() {
 	switch os.Args[1] {
 	case "verify":
 		cmdVerify(os.Args[2:])
+	case "baseline":
+		cmdBaseline(os.Args[2:])
 	case "check":
 		cmdCheck(os.Args[2:])
 	default:
@@ -179,4 +187,3 @@ func aggregate(obs []*Oblig) map[string]*Agg {
 	return out
 }
 
-func cmdCheck(args []string) {}
